@@ -135,4 +135,31 @@ theorem disabled_replayer_is_never_used {c : Cfg} {s s' : St} (hd : s.replayer =
         exact h
     · simp at hs
 
+/-! ### The translated fan-out (see `Props/C03.lean`): a failing subscriber -/
+
+/-- **Only the failing subscriber is removed, and it is handed its own error.** What the translated fan-out appends to the
+log of Joe's channel operations is exactly, for every subscriber whose `Send` or `Flush` failed, in the order visited:
+that error sent on *its own* `done` channel, then that channel's close — and nothing for anybody else. So a failed
+subscriber gets its own first error (a failed `Send` is not followed by a `Flush`), exactly once, on a channel that is
+closed right after and never touched again; the subscribers that did not fail stay in the map (`C03.fanout_exactly_once`:
+their entries are `delivered` or `skipped`), whatever happened to the others before or after them in the same fan-out. -/
+theorem fanout_hands_over_own_error {σ : Type} (fuel : Nat) (j : Gen.Joe σ) (msg : Gen.publishedMessage) (order : List Nat)
+    (hf : order.length < fuel) (hfit : GenEquiv.TopicsFit fuel msg j) (hnd : order.Nodup) :
+    ∃ j', Gen.Joe_fanout fuel j msg order = .ok j' ∧
+      j'.chlog = j.chlog ++ order.flatMap fun k => GenEquiv.stepLog msg k (GoRT.mapGet j.subscribers k) :=
+  ⟨_, GenEquiv.fanout_eq fuel j msg order hf hfit, GenEquiv.fold_log msg order j hnd⟩
+
+/-- non-vacuity: three subscribers on topic "t"; the second one's Send fails: it gets "boom" and is closed, the others
+are delivered to and stay -/
+example :
+    let w (fail : Bool) : GoRT.MsgWriter Gen.Message Nat :=
+      ⟨0, fun st _ => (if fail then some "boom" else none, st + 1), fun st => (none, st + 10)⟩
+    let sub (fail : Bool) : Gen.Subscription Nat := ⟨w fail, default, [[116]]⟩
+    let j : Gen.Joe Nat := ⟨0, 0, 0, 0, 0, [(1, sub false), (2, sub true), (3, sub false)], (), (), []⟩
+    let msg : Gen.publishedMessage := ⟨9, ⟨none, [[116]]⟩⟩
+    (Gen.Joe_fanout 10 j msg [3, 2, 1]).map (fun j' => (j'.subscribers.map fun e => (e.1, e.2.Client.st), j'.chlog)) =
+      .ok ([(1, 11), (3, 11)], [GoRT.ChanOp.send 2 (some "boom"), GoRT.ChanOp.close 2]) := by
+  intro w sub j msg
+  rfl
+
 end GoSSE.Props.C17
